@@ -111,9 +111,21 @@ func (vm *VirtualMachine) applyOptions(options []Option) error {
 
 	// Convert globals to Risor objects
 	var err error
+	earlierGlobals := vm.globals
 	vm.globals, err = object.AsObjects(vm.inputGlobals)
 	if err != nil {
 		return fmt.Errorf("invalid global provided: %v", err)
+	}
+
+	// Globals given with this call replace the earlier ones, and so do their
+	// modules: what was importable because an earlier configuration had it
+	// as a global is not importable under this one
+	if vm.globalsGiven {
+		for name, value := range earlierGlobals {
+			if module, ok := value.(*object.Module); ok && vm.modules[name] == module {
+				delete(vm.modules, name)
+			}
+		}
 	}
 
 	// Add any globals that are modules to a cache to make them available
